@@ -91,6 +91,13 @@ class FailingConn:
         self._tick()
         return self.conn.commit()
 
+    def __enter__(self):
+        self.conn.__enter__()
+        return self
+
+    def __exit__(self, *exc):
+        return self.conn.__exit__(*exc)
+
     def __getattr__(self, name):
         return getattr(self.conn, name)
 
